@@ -116,6 +116,6 @@ def measure(cell, seed, npts):
     if clause == "expanded-order":
         if not exps:
             return {"resolved": False, "exp100": 0, "why": "expanded-exact below the resolution of the numerical exact solution (1e-5 of the evolved distance)"}
-        e = min(exps)
+        e = c.low_quartile(exps)
         return {"exp100": c.exp100(e), "raw_exp": e, "resolved": True, "n": len(exps)}
     return {"dec": c.decades(worst), "raw": worst, "resolved": True}
